@@ -42,7 +42,7 @@ Qed.
 (* ---- po2 x fixed (Shifter) ---- *)
 Lemma get_exp_nonneg t : 0 <= fst (get_exp t) /\ 0 <= snd (get_exp t).
 Proof. unfold get_exp. cbv zeta. cbn [fst snd]. split; [|lia].
-  pose proof (p2nonneg ((if q_sgn t then q_bits t - 1 else q_bits t) - 1)). lia. Qed.
+  pose proof (p2nonneg (exp_bits t)). lia. Qed.
 
 (* arithmetic core: shifting a code by e + mn positions *)
 Lemma shift_bound n mn mx e k : 0 <= n -> 0 <= mn -> 0 <= mx -> - mn <= e <= mx ->
@@ -206,7 +206,7 @@ Proof.
   { unfold o, adder_mul. rewrite Mw, Mx.
     destruct (name_has_po2 _); simpl; repeat split. }
   destruct Ho as [Hb [Hsg Hm]].
-  unfold get_exp in *. rewrite Mw in H1. rewrite Mx in H2. rewrite Hm, Hb, Hsg.
+  unfold get_exp, exp_bits in *. rewrite Mw in H1. rewrite Mx in H2. rewrite Hm, Hb, Hsg.
   cbn [fst snd] in *. rewrite Hs in *.
   destruct (q_sgn x) eqn:Sx; simpl orb; cbv iota; cbn [b2z] in *.
   - set (a := q_bits w - 1 - 1) in *. set (b := q_bits x - 1 - 1) in *.
@@ -231,6 +231,14 @@ Theorem adder_mul_mixed_sign_refuted :
   exists w x, q_mode w = 1 /\ q_mode x = 1 /\ mul_bad_pairs w x <> [].
 Proof.
   exists (QT 1 2 2 true false true None NPo2 None), (QT 1 2 2 false false true None NReluPo2 None).
+  vm_compute. repeat split; discriminate. Qed.
+
+(* po2 with max_value <= 1 (no exponent sign bit) x po2 with an exponent sign bit: the reported range is too small.
+   quantized_po2(2, max_value=1/2) x quantized_po2(2): 1/4 * 1/2 = 2^-3, reported range [-2, 1] *)
+Theorem adder_mul_no_exponent_sign_bit_refuted :
+  exists w x, q_mode w = 1 /\ q_mode x = 1 /\ q_sgn w = q_sgn x /\ mul_bad_pairs w x <> [].
+Proof.
+  exists (QT 1 2 2 true false true (Some (1, 2)) NPo2 None), (QT 1 2 2 true false true None NPo2 None).
   vm_compute. repeat split; discriminate. Qed.
 
 (* AndGate with a 0/1 weight that is not literally named "binary" (bernoulli, or
